@@ -193,6 +193,11 @@ func genKeys(r *core.Rand, kinds []kind, n int, p profile) []tuple {
 				t[i] = int64(0)
 			}
 			add(t)
+		case len(kinds) == 2 && len(keys) > 1 && r.Chance(1, 4):
+			// the cross of two existing keys: every part occurs in some key, the tuple is another one
+			// (a column-by-column comparison cannot tell it from them)
+			k1, k2 := core.Pick(r, keys), core.Pick(r, keys)
+			add(tuple{k1[0], k2[1]})
 		case len(kinds) == 2 && len(keys) > 0 && r.Chance(1, 4):
 			// share one part with an existing key
 			base := core.Pick(r, keys)
@@ -451,10 +456,14 @@ func (ds *dataset) insert() {
 
 // cond is a condition on the payload column v of the loaded relation.
 type cond struct {
-	form string // args | map | scope | scope-order | join-on
+	form string // args | map | scope | scope-order | scope-unscoped | join-on
 	op   string // ">=", "<", "="
 	x    int64
 }
+
+// lifts reports whether the condition itself lifts the soft-delete scope of the relation it is
+// attached to (a scope function that calls Unscoped()).
+func (c *cond) lifts() bool { return c != nil && c.form == "scope-unscoped" }
 
 func (c *cond) ok(r *row) bool {
 	if c == nil {
@@ -474,8 +483,26 @@ func (c *cond) ok(r *row) bool {
 func (ds *dataset) live(m *model, r *row) bool { return !(m.soft && r.deleted) }
 
 // expected returns the rows of rel.target that belong to owner row p: foreign key equals the
-// referenced key, live, satisfying c.
-func (ds *dataset) expected(rl *rel, p *row, c *cond) []*row { return ds.join(rl, p, c, false) }
+// referenced key, satisfying c and the soft-delete scope (lifted when the whole query is Unscoped
+// or the condition is a scope function calling Unscoped()).
+func (ds *dataset) expected(rl *rel, p *row, c *cond, unscoped bool) []*row {
+	return ds.join(rl, p, c, unscoped || c.lifts())
+}
+
+// ambiguous reports whether, without the soft-delete scope, some owner row of the single-valued
+// relation rl has more than one candidate row (which one a has-one holds is then not fixed by the
+// statement, and a JOIN would multiply the parent row).
+func (ds *dataset) ambiguous(rl *rel) bool {
+	if !rl.single {
+		return false
+	}
+	for _, p := range ds.rows[rl.owner] {
+		if len(ds.join(rl, p, nil, true)) > 1 {
+			return true
+		}
+	}
+	return false
+}
 
 // linked is expected without the soft-delete scope (used only to draw plausible earlier content of
 // a reused destination, never as an oracle).
